@@ -52,6 +52,8 @@ val eqb : bool -> bool -> bool
 
 module Nat :
  sig
+  val eqb : nat -> nat -> bool
+
   val leb : nat -> nat -> bool
  end
 
@@ -692,6 +694,12 @@ val def_reg : instr -> n option
 
 val defs : instr list -> n list
 
+val set_label_of : instr -> string list
+
+val set_labels : instr list -> string list
+
+val target_labels : instr -> string list
+
 val increasing_from : n -> n list -> bool
 
 val chk_C09_root : block -> bool
@@ -743,3 +751,145 @@ val chk_C07 : program -> output -> bool
 val ttree_ops : ttree -> nat
 
 val judged_C07 : program -> nat
+
+val decl_value : instr -> value option
+
+val decl_values : instr list -> value list
+
+val decl_names : instr list -> string list
+
+val read_values : instr -> value list
+
+val reads : instr list -> value list
+
+val value_eqb : value -> value -> bool
+
+val nodup_strings : string list -> bool
+
+val chk_C12_root : block -> bool
+
+val chk_C12 : output -> bool
+
+type event =
+| EvLet
+| EvAssign
+| EvCall of string
+| EvRet
+
+type status =
+| Returned
+| OutOfOutcomes
+| OutOfFuel0
+| FellOff
+| BadLabel of string
+
+type trace = event list * status
+
+val event_eqb : event -> event -> bool
+
+val events_eqb : event list -> event list -> bool
+
+val prefixb : event list -> event list -> bool
+
+val find_label : string -> instr list -> nat option
+
+type action =
+| Next of event list * nat * bool list
+| Halt of event list * status
+
+val goto : instr list -> string -> bool list -> action
+
+val branch : instr list -> string -> string -> bool list -> action
+
+val instr_step : instr list -> instr -> nat -> bool list -> action
+
+val flat_step : instr list -> nat -> bool list -> action
+
+val prepend_trace : event list -> trace -> trace
+
+val flat_run : instr list -> nat -> nat -> bool list -> trace
+
+val flat_exec : instr list -> bool list -> nat -> trace
+
+val expr_events : expr -> event list
+
+val val_events : expr_val -> event list
+
+val exprs_events : expr list -> event list
+
+val lcond_events : lcond -> event list
+
+val cond_events : cond -> event list
+
+type completion =
+| Normal
+| Brk
+| Cont
+| JumpOuterEnd
+| Stop of status
+
+type sres = (event list * completion) * bool list
+
+val prepend : event list -> sres -> sres
+
+val seq0 : sres -> (bool list -> sres) -> sres
+
+val ifbody_stmts : ifbody -> stmt list
+
+val if_exit : bool -> bool -> sres -> sres
+
+val loop_exit : sres -> (bool list -> sres) -> sres
+
+val out_of_fuel_res : bool list -> sres
+
+val exec_stmts : bool -> nat -> bool -> stmt list -> bool list -> sres
+
+val finish : sres -> trace
+
+val struct_exec : bool -> stmt list -> bool list -> nat -> trace
+
+val agree : trace -> trace -> bool
+
+val flat_ok : status -> bool
+
+val all_outcomes : nat -> bool list list
+
+val forallb2 : ('a1 -> 'a2 -> bool) -> 'a1 list -> 'a2 list -> bool
+
+val chk_C05_word : bool -> nat -> fn_decl -> block -> bool list -> bool
+
+val chk_C05_fn : bool -> nat -> nat -> fn_decl -> block -> bool
+
+val chk_C05 : bool -> nat -> nat -> program -> output -> bool
+
+val nodupb : string list -> bool
+
+val chk_C10_unique_root : block -> bool
+
+val chk_C10_unique : output -> bool
+
+val chk_C10_resolve_root : block -> bool
+
+val chk_C10_resolve : output -> bool
+
+val is_fn_ret : instr -> bool
+
+val is_fn_ret_label : instr -> bool
+
+val is_jump_fn_ret : instr -> bool
+
+val count_instr : (instr -> bool) -> instr list -> nat
+
+val rets_stmt : stmt -> nat
+
+val rets_if : ifstmt -> nat
+
+val rets_ifbody : ifbody -> nat
+
+val nested_rets_stmt : stmt -> nat
+
+val nested_rets : stmt list -> nat
+
+val chk_C11_fn : fn_decl -> block -> bool
+
+val chk_C11 : program -> output -> bool
